@@ -1,0 +1,12 @@
+//go:build verif
+
+// Contracts for this plugin, checked by /verif/govc (comment-only file).
+
+package dns
+
+//@ func Handler4
+//@   implements handler.Handler4
+//@   modifies everything
+//@   ensures[C17:dns-when-requested] requested4(req.Options, 6) ==> (ret0 == resp && !ret1 && has(resp.Options, 6) && resp.Options[6] == optenc(opt_ips(6, dnsServers4)))
+//@   ensures[C17:dns-only-when-requested] !requested4(req.Options, 6) ==> (ret0 == resp && !ret1 && (has(resp.Options, 6) <==> old(has(resp.Options, 6))) && resp.Options[6] == old(resp.Options[6]))
+//@   ensures[C17:other-options-untouched] forall k uint8: k != 6 ==> ((has(resp.Options, k) <==> old(has(resp.Options, k))) && resp.Options[k] == old(resp.Options[k]))
